@@ -453,6 +453,11 @@ func (p *vPKI) bundleFiles(b vBundle) []string {
 
 func (p *vPKI) serverConfig(e vTpl, pos int) *tls.Config {
 	cfg := &tls.Config{Certificates: []tls.Certificate{*p.leaf(e.ID, pos)}, MinVersion: tls.VersionTLS10, NextProtos: []string{"h2"}, ClientCAs: p.cliPool}
+	// explicit list: grpc's server credentials would otherwise restrict the suites to the HTTP/2-safe AEAD ones, which
+	// no TLS 1.0/1.1 handshake can use, and the "TLS <= 1.1 only" server would fail for the wrong reason
+	for _, cs := range tls.CipherSuites() {
+		cfg.CipherSuites = append(cfg.CipherSuites, cs.ID)
+	}
 	switch e.Vmax {
 	case "tls11":
 		cfg.MaxVersion = tls.VersionTLS11
@@ -566,6 +571,9 @@ func (c *vCreds) ServerHandshake(raw net.Conn) (net.Conn, credentials.AuthInfo, 
 	h.done = true
 	if err != nil {
 		h.hs = "fail"
+		if os.Getenv("VERIF_DEBUG") != "" {
+			fmt.Fprintf(os.Stderr, "verif: server handshake at position %d failed: %v\n", c.pos, err)
+		}
 		return conn, ai, err
 	}
 	h.hs = "ok"
@@ -643,7 +651,12 @@ func vNewLane(id int, pki *vPKI, tlsMode bool) *vLane {
 		for k, x := range ls {
 			pos := k + 1
 			base := &tls.Config{MinVersion: tls.VersionTLS10, NextProtos: []string{"h2"},
-				GetConfigForClient: func(*tls.ClientHelloInfo) (*tls.Config, error) { return l.configFor(pos), nil }}
+				GetConfigForClient: func(chi *tls.ClientHelloInfo) (*tls.Config, error) {
+					if os.Getenv("VERIF_DEBUG") != "" {
+						fmt.Fprintf(os.Stderr, "verif: client hello at position %d: versions %x suites %x\n", pos, chi.SupportedVersions, chi.CipherSuites)
+					}
+					return l.configFor(pos), nil
+				}}
 			s := grpc.NewServer(grpc.Creds(&vCreds{TransportCredentials: credentials.NewTLS(base), lane: l, pos: pos}))
 			pb.RegisterSigningServer(s, &vStub{lane: l, pos: pos})
 			go s.Serve(x)
